@@ -26,6 +26,8 @@ type Thread struct {
 	// timer threads: not enabled until armed time is reached
 	timer *Timer
 	body  func()
+	// idle threads (see IdleThread) are only scheduled when nothing else can run
+	idle bool
 }
 
 type point struct {
@@ -92,7 +94,19 @@ func (x *Exec) enabledList(tEnabled bool) []*Thread {
 		if t.timer != nil && !t.timer.fired {
 			continue
 		}
+		if t.idle {
+			continue
+		}
 		en = append(en, t)
+	}
+	if len(en) == 0 {
+		// nothing else can run: the first runnable idle thread (no choice point)
+		for _, t := range x.threads {
+			if t.idle && t != x.cur && !t.done && t.blocked == nil {
+				en = append(en, t)
+				break
+			}
+		}
 	}
 	return en
 }
@@ -449,4 +463,38 @@ func (e *Explorer) explore(prefix []int, bound int, _ int) {
 			used++
 		}
 	}
+}
+
+// Pending reports whether the timer is armed: not fired and not stopped.
+func (tm *Timer) Pending() bool { return !tm.fired && !tm.stopped }
+
+// RunDueInline advances virtual time by d and runs the function of every timer
+// that became due in the CALLING goroutine, one after the other (no scheduling
+// choice). It is meant for deterministic sequential prefixes executed in
+// Scenario.Setup before any thread has been registered for scheduling. Returns
+// the number of timer functions run.
+func (x *Exec) RunDueInline(d time.Duration) int {
+	x.Now = x.Now.Add(d)
+	n := 0
+	for i := 0; i < len(x.timers); i++ {
+		tm := x.timers[i]
+		if !tm.fired && !tm.stopped && !tm.when.After(x.Now) {
+			tm.fired = true
+			tm.t.done = true
+			tm.t.body()
+			n++
+		}
+	}
+	return n
+}
+
+// IdleThread registers a logical thread that is scheduled only when no other
+// thread is enabled (all others finished, blocked, or unfired timers). Use it
+// for a deterministic sequential epilogue after a concurrent phase ("join").
+// While an idle thread runs, threads it enables (fired timers, spawned threads)
+// compete with it like with any other thread.
+func (x *Exec) IdleThread(name string, body func()) *Thread {
+	t := x.Thread(name, body)
+	t.idle = true
+	return t
 }
